@@ -9,10 +9,12 @@ NAMES = [
 
 def run(tier, seed):
     lens = [1, 2, 3, 4] if tier == "quick" else [1, 2, 3, 4, 10]
-    job = hist_job("C12", lens, NAMES, unwind=16, timeout=2400)
-    obs = job.run()
+    # with_const_width is float heavy in CBMC (LEN 3: ~300 s, LEN 4: ~760 s): quick covers LEN 1, 2
+    cw_lens = [1, 2] if tier == "quick" else [1, 2, 3, 4]
+    obs = hist_job("C12", lens, NAMES[:1], unwind=16, timeout=1500, harness_timeout=600).run()
+    obs += hist_job("C12", cw_lens, NAMES[1:], unwind=16, timeout=3000, harness_timeout=2400).run()
     if tier == "thorough":
-        obs += hist_const_job("C12", [1, 3], NAMES, unwind=9).run()
+        obs += hist_const_job("C12", [1, 3], NAMES[:1], unwind=9).run()
     try:
         import c12_rs
         obs += c12_rs.run(tier)
@@ -26,6 +28,7 @@ def run(tier, seed):
         "functions_under_contract": ["Histogram::from_ranges", "Histogram::with_const_width", "Histogram::ranges", "Histogram::bins"],
         "source_files": [F, FC, "src/lib.rs"],
         "assumptions": [
+            "with_const_width bit-precise harness: LEN in %s in this tier" % cw_lens,
             "configurations: LEN in %s, complete per LEN: input = LEN+3 fully symbolic f64 (all bit patterns) and symbolic length 0..LEN+3" % lens,
             "oracle written from the property statement inside the harness (first offending position, NaN before NotSorted at the same index, NotEnoughRanges only when no earlier error)",
             "with_const_width: bit-precise part = non-decreasing edges, no NaN, first edge == start, zero counts for finite start < end, |start|,|end| <= 1e30",
